@@ -169,8 +169,9 @@ def parse_vspec(path):
                                      "nth": int(m.group(4)) if m.group(4) else None,
                                      "plus": int(m.group(6)) if m.group(6) else 0})
         elif head == "dead":
-            m = re.match(r'"(.*)"$', rest)
-            cur_fn["dead"].append(m.group(1))
+            # dead "<exact inner text of a block>" [#n]: that block is unreachable under the contracts (its canary must verify)
+            m = re.match(r'"(.*)"\s*(#(\d+))?$', rest)
+            cur_fn["dead"].append((m.group(1), int(m.group(3)) if m.group(3) else 0))
         elif head == "nocanary":
             cur_fn["nocanary"] = True
         elif head == "external_body":
@@ -497,10 +498,15 @@ class UnitGen:
                     at = be - 1
                 cid = self.ncanary
                 self.ncanary += 1
-                btxt = src.text(bs, be)
-                dead = any(d in btxt for d in fs["dead"]) and not any(
-                    (m["kind"] == "block" and m["range"][0] > bs and m["range"][1] < be and
-                     any(d in src.text(*m["range"]) for d in fs["dead"])) for m in nodes)
+                inner = src.text(bs + 1, be - 1).strip()
+                dead = False
+                for (anc, nth) in fs["dead"]:
+                    cands = [m for m in nodes if m["kind"] == "block" and not m["in_closure"]
+                             and blk[0] <= m["range"][0] and m["range"][1] <= blk[1]
+                             and src.text(m["range"][0] + 1, m["range"][1] - 1).strip() == anc]
+                    cands.sort(key=lambda m: m["range"][0])
+                    if nth < len(cands) and cands[nth]["range"] == n["range"]:
+                        dead = True
                 self.canaries.append({"id": cid, "fn": qual, "file": src.rel, "line": src.line_of(at), "dead": dead})
                 edits.append((at, at, f" proof {{ if vx_canary({cid}) {{ assert(false); }} }} ", "canary"))
 
